@@ -41,6 +41,11 @@ def combinerOp (op : String) (args : List String) : Option String :=
     | .ok none => some "nil"
     | .ok (some h) => some s!"{h.reference} {h.total} {h.seq}"
     | .panic _ => some "panic"
+  | "addrstr", [a] => do
+    let ad ← parseAddr a
+    match addressString ad with
+    | .ok s => some (toHex s)
+    | .panic _ => some "panic"
   | "msgstate", [n] => do
     let m ← n.toNat?
     match messageStateString Smpp.Generated.messageStateNames m with
